@@ -39,6 +39,7 @@ def finding_key(req, obs, detail):
     d = detail or ""
     # the one single-precision value whose shortest decimal (7.038531e-26) lies so close to the midpoint of two
     # singles that its nearest double IS that midpoint: read back through the double it becomes the neighbour
+    # (repaired by 265a080; the record is `fixed`, so a return of the defect is named by this key and is a VIOLATION)
     if re.search(r"\b[19]5ae43fd\b", d) and re.search(r"\b15ae43fe\b", d) and "07038531" in d and \
             (d.startswith("FAIL:emit Float") or d.startswith("FAIL:fmt Float")):
         return "formatter.rs format_literal: single 0x15ae43fd printed with f32 Display digits (7.038531e-26) reads back as 0x15ae43fe"
@@ -160,7 +161,7 @@ SPEC = {
         "nearest_correct_partial", "nearest_correct", "nearest_monotone", "nearest64_monotone",
         "nearest_exact_on_representable",
         "literal_tables_as_modelled", "msl_double_literal_rejected", "emit_int_exact", "emit_value_exact", "emit_whole_value_exact",
-        "emit_infinity_exact", "emit_negative_exact", "emit_f32_double_rounding_witness",
+        "emit_infinity_exact", "emit_negative_exact", "emit_f32_double_rounding_repaired",
         "multi_file_spans_in_file", "multi_file_error_in_file"]],
     "harness": "c10",
     "nontrivial": nontrivial,
@@ -194,15 +195,23 @@ SPEC = {
                   "every run); the printed text of an integer literal lexes back to the same kind and value "
                   "(emit_int_exact); of a finite float of any kind to the same kind and bits (emit_value_exact) assuming "
                   "only that Rust's Display writes plain decimal digits, a '.' exactly for non-integers, whose nearest "
-                  "double (narrowed once for f/h) is the value; whole values up to 2^63 (printed through `as i64`) and "
+                  "double is the value — assumed of doubles only (the untyped and L kinds; for a single, of the value "
+                  "as a double) and of whole singles above 2^63: for every other single format_literal itself tests "
+                  "whether its Display digits read back through the double (f32_digits_round_twice, fix 265a080; the "
+                  "guard is modelled with nearest64 / narrow32 and its source text is pinned) and otherwise prints the "
+                  "digits of the same value as a double, which narrows back exactly (narrow32_widen, proved for zero, "
+                  "subnormal and normal singles); whole values up to 2^63 (printed through `as i64`) and "
                   "+inf (1.#INF) need no assumption (emit_whole_value_exact, emit_infinity_exact). Metal has no double: the "
                   "Metal generate_literal (all 15 arms of both generators pinned with their results) builds no Float64 "
                   "literal but returns UnsupportedDouble, and format_literal fails only at write_infinity_f64's "
                   "`invalid msl` site, which needs exactly that node (msl_double_literal_rejected; after fix 9824ce3); "
-                  "an integer constant no literal can carry is IntLiteralOutOfRange in both generators (6017bad). The assumption is "
+                  "an integer constant no literal can carry is IntLiteralOutOfRange in both generators (6017bad). The assumptions are "
                   "checked bit for bit on every generated value and, in the thorough tier, on all 2^31 non-negative "
-                  "singles: it fails for exactly one single, 0x15ae43fd (negation witness "
-                  "emit_f32_double_rounding_witness; known finding). Rust's parse::<f64> / `as f32` are compared bit "
+                  "singles: the Display digits of exactly one single, 0x15ae43fd, do not read back through the double; "
+                  "since fix 265a080 format_literal prints it as 0.00000000000000000000000007038530691851209f, which "
+                  "reads back as 0x15ae43fd (emit_f32_double_rounding_repaired, the positive form of the former "
+                  "negation witness; both kinds, targets and signs; the sweep runs the real formatter on every such "
+                  "single). Rust's parse::<f64> / `as f32` / `as f64` are compared bit "
                   "for bit with the reference and with an independent big-integer oracle on every run.",
     "rule": "requests = (flags, UTF-8 text) lexed token by token with the real TokenStream (and read_to_end, and unlex, and "
             "the diagnostic printed through MessagePrinter); every fixed spelling of every token kind alone, ordered pairs "
@@ -222,8 +231,10 @@ SPEC = {
             "initialisers, array size, enum value, enum cast, template argument, macro from an included file, define "
             "passed to compile, ## paste) through rssl::compile, printed literal re-read by an exact reference; C10.fmt: "
             "rssl_formatter on an AST literal of random bits (8 kinds x 2 targets, both signs, infinities, whole values "
-            "around 2^63, subnormals), printed text lexed by the real lexer, model-compared; C10.sweep32: Display of "
-            "every 61st (thorough: every) single read back through the double; C10.pp: generated 1-3 file programs with "
+            "around 2^63, subnormals, the neighbourhood of 0x15ae43fd), printed text lexed by the real lexer, "
+            "model-compared; C10.sweep32: Display of every 61st (thorough: every) single read back through the double, "
+            "and the real formatter on each single for which that is not the value (both single kinds, targets, signs): "
+            "its text must lex back to the value; C10.pp: generated 1-3 file programs with "
             "defines, object/function macros, ## pastes, conditionals, #pragma once through the real preprocessor: every "
             "token's span decodes to one file, is a token of that file's own tiling, a probe diagnostic at both ends "
             "renders inside the file; C10.loc: the location decoder on those managers (model-compared); C10.diag: "
@@ -248,9 +259,10 @@ SPEC = {
         "and is compared with rssl_formatter on every C10.fmt case",
         "Model/SourceMap.lean + Gen.SourceMapTables (C14's model of text/src/location.rs), compared with the real "
         "SourceManager on every C10.loc case",
-        "Rust's Display for f64/f32 (shortest round-trip digits): the hypothesis of emit_value_exact, checked bit for bit "
-        "by the harness (plain digits, '.' iff fractional, value read back directly and through the double) — exhaustive "
-        "over all singles in the thorough tier",
+        "Rust's Display for f64/f32 (shortest round-trip digits): the hypotheses of emit_value_exact (plain digits, '.' iff "
+        "fractional; for doubles — also a single's value as a double — and whole singles above 2^63 the value read back "
+        "through the double), checked bit for bit by the harness — the read-back exhaustive over all singles in the "
+        "thorough tier; `f32 as f64` is exact (compared with the harness' exact widening on every C10.fmt case)",
     ],
     "assumptions": [
         "files are shorter than 2^32 bytes (SourceManager::add_file asserts it), so `as u32` on offsets is exact",
